@@ -162,3 +162,16 @@ def _attr_path(eng, m, g, a):
     while k < len(inner) and (inner[k][0] == "i" or (inner[k][0] == "p" and inner[k][1] == ":")): k += 1
     return Slot([parse_kind("Path", inner[:k])], 0)
 MODELS.insert(0, (re.compile(r"^(syn::)?Attribute::path$"), _attr_path))
+
+def _punct_new(eng, m, g, a):
+    sep = "::"
+    gs = " ".join(g)
+    if "Comma" in gs or "Token![,]" in gs or "," in gs.replace("::", ""): sep = ","
+    if "PathSep" in gs or "Colon2" in gs or "PathSegment" in gs: sep = "::"
+    p = PunctV([], sep); return p
+MODELS.insert(0, (re.compile(r"^(syn::punctuated::)?Punctuated::new$|^<(syn::punctuated::)?Punctuated<.*> as (std::default::)?Default>::default$"), _punct_new))
+MODELS.insert(0, (re.compile(r"^(syn::punctuated::)?Punctuated::(push|push_value)$"), lambda eng, m, g, a: (deref(a[0]).items.append(a[1]), UNIT)[1]))
+MODELS.insert(0, (re.compile(r"^(syn::punctuated::)?Punctuated::push_punct$"), lambda eng, m, g, a: UNIT))
+MODELS.insert(0, (re.compile(r"^(syn::punctuated::)?Punctuated::(pop)$"), lambda eng, m, g, a: (lambda it: some(Agg("Pair::End", [it.pop()])) if it else none())(deref(a[0]).items)))
+MODELS.insert(0, (re.compile(r"^<(syn::punctuated::)?Punctuated<.*> as Extend<.*>>::extend$"), lambda eng, m, g, a: (deref(a[0]).items.extend(drain(eng, as_iter(eng, a[1]))), UNIT)[1]))
+MODELS.insert(0, (re.compile(r"^<(syn::punctuated::)?Punctuated<.*> as FromIterator<.*>>::from_iter$"), lambda eng, m, g, a: PunctV(drain(eng, as_iter(eng, a[0])), "," if "Comma" in " ".join(g) else "::")))
